@@ -75,6 +75,19 @@ CHECKS["C14"] = dict(
          "CRC's detection algebra.",
     ref="DESIGN.md §3 C14")
 
+CHECKS["C16"] = dict(
+    technique="static analysis: exhaustive abstract evaluation of the pruning tables over the sign domain, sibling switch-table agreement, CFG must-pass/dominance",
+    text="Structural clauses: the operator table of row_group_matches (6 operators x 6 feasible orderings) and the "
+         "interval tables of statistics_compare/range_overlaps/page_might_match clear the match flag only where "
+         "no value can match; comparators are called as cmp(probe, own bound); might_match=true precedes every "
+         "return, errors and absent statistics mean match, filter is ascending and capped; every "
+         "type->comparator switch agrees per physical type and typed types never use byte order; comparator "
+         "bodies order by their own type; floating min/max updates NaN-guarded; memcpy into min/max storage "
+         "bounded; every value reaches the update decision or invalidates the bounds; null count = "
+         "num_values - num_non_null. Not decided: that written min/max bound every input; byte-array ordering "
+         "semantics of logical types.",
+    ref="DESIGN.md §3 C16")
+
 NOT_APPLICABLE = {
     "C10": "conformance of Snappy/LZ4 streams to the external grammars is a statement about emitted/accepted byte values; no structural clause beyond the decoder bounds already decided under C08 (DESIGN.md §6)",
     "C12": "conformance of encoder output to the Parquet encoding specification needs an independent codec as value oracle; no sound structural clause (DESIGN.md §6)",
